@@ -70,7 +70,7 @@ theorem C35_input_required_once (cfg : Cfg) (pol : Policy) (step : Nat) (tickEv 
 def C35.exCfg : Cfg := { steps := [{ name := 1, accepted := [5], numWorkers := 2, hasRetry := false }] }
 def C35.exEv (u : Nat) : Ev := { ty := 5, kind := .plain, uid := u }
 example :
-    let r := C35.cmds C35.exCfg (fun _ _ _ _ => none) initState 0
+    let r := C35.cmds C35.exCfg (fun _ _ _ _ => .stop) initState 0
       [(.addEvent { ev := C35.exEv 1 } none, 0), (.addEvent { ev := C35.exEv 2 } none, 0),
        (.stepResult 1 0 (C35.exEv 1) [.result none], 1), (.addEvent { ev := C35.exEv 3 } none, 2)]
     (r.2.contains .crash, (r.1.workers 1).inProg.map (·.wid)) = (false, [1, 0]) := by decide
